@@ -86,3 +86,38 @@ contract("esutil.htm.htm.log_bins",
                   "bins-are-contiguous": "all(result[1][i] == ufn('pow', 10, ufn('log10', rmin) + (ufn('log10', rmax) - ufn('log10', rmin)) / nbin * i"
                                          " + (ufn('log10', rmax) - ufn('log10', rmin)) / nbin) for i in range(0, nbin))"},
          props=["C13"], runtime=False)
+
+
+# ------------------------------------------------------------------------------------------------ one-shot method == reusable matcher (C12)
+contract("htmc.HTMC.get_depth", params=dict(), returns="int", assumed=True, lang="c++", runtime=False,
+         why_assumed="C++ accessor: the depth the object was built with",
+         ensures={"depth": "result == ufn('htm_depth') and result >= 0"}, props=["C12"])
+contract("esutil.htm.htm.Matcher.__init__#ghost", runtime_name="esutil.htm.htm.Matcher.__init__",
+         params=dict(self="obj:Matcher{}", depth="int", ra="arr[real]", dec="arr[real]"), assumed=True, runtime=False,
+         why_assumed="ghost view of the reusable matcher: it is determined by the depth and the second point set it was built from "
+                     "(the C++ constructor builds the triangle-id map from them)",
+         requires={"one-declination-per-right-ascension": "len(ra) == len(dec)"},
+         ensures={"built-from": "self.depth == depth and self.set2 == ufn('point_set', ra, dec)"},
+         modifies=["self.depth", "self.set2"],
+         post_types={"self.depth": "int", "self.set2": "real"},
+         props=["C12"])
+contract("esutil.htm.htm.Matcher.match#value", runtime_name="esutil.htm.htm.Matcher.match",
+         params=dict(self="obj:Matcher{depth:int,set2:real}", ra="arr[real]", dec="arr[real]", radius="arr[real]",
+                     maxmatch="int", file="str"),
+         returns="real", assumed=True, runtime=False,
+         why_assumed="the pairs returned by the reusable matcher as an uninterpreted function of everything they can depend on "
+                     "(depth, second set, first set, radii, maxmatch); its Python glue is proved in Matcher.match#radius-*, "
+                     "the pairs themselves are decided by the bounded oracle",
+         ensures={"value": "result == ufn('htm_pairs', self.depth, self.set2, ra, dec, radius, maxmatch)"},
+         props=["C12"])
+
+contract("esutil.htm.htm.HTM.match",
+         params=dict(self="obj:HTM{}", ra1="arr[real]", dec1="arr[real]", ra2="arr[real]", dec2="arr[real]", radius="arr[real]",
+                     maxmatch="int", htmid2="none", htmrev2="none", minid="none", maxid="none", file="none", verbose="const:False"),
+         returns="real",
+         requires={"sizes": "len(ra1) == len(dec1) and len(ra2) == len(dec2) and (len(radius) == 1 or len(radius) == len(ra1))"},
+         ensures={"the-one-shot-method-is-the-reusable-matcher-built-from-the-second-set-at-this-depth":
+                  "result == ufn('htm_pairs', ufn('htm_depth'), ufn('point_set', ra2, dec2), ra1, dec1, radius, maxmatch)",
+                  "caller's-arrays-untouched": "all(ra1[k] == old(ra1[k]) for k in range(0, len(ra1))) and all(ra2[k] == old(ra2[k]) for k in range(0, len(ra2)))"},
+         callee_contracts={"Matcher.__init__": "esutil.htm.htm.Matcher.__init__#ghost", "Matcher.match": "esutil.htm.htm.Matcher.match#value"},
+         props=["C12", "C15"], runtime=False)
